@@ -57,7 +57,11 @@ Definition timer_src (t : option Z) : list src := match t with Some s => [STimer
 (* the blocking waits of each public call, as the code has them *)
 Definition waits (P : cparams) (tstart_s : Z) (pr : proto) (o : op) : list wait :=
   match o with
-  | OStart => [ [SEof] ++ (if cp_start_done P then [SDone] else []) ++ (if cp_start_timeout P then [STimer tstart_s] else []) ]
+  | OStart =>
+      (* the select also has a doneCtx arm, but it cannot fire while Start runs: Start holds the client lock from entry to
+         return, and the process-wait goroutine takes that lock (to set exited) before its deferred cancel runs.  What
+         ends the wait when the plugin dies is the scanner goroutine closing the line channel at EOF *)
+      [ [SEof] ++ (if cp_start_timeout P then [STimer tstart_s] else []) ]
   | OClient => match pr with PGrpc => [] | _ => [[SConn]] end              (* gRPC dials lazily; net/rpc and the multiplexer dial at once *)
   | ODispense => match pr with PNet => [[SConn]] | _ => [] end            (* gRPC Dispense is local *)
   | OPing | OCall | OStream => [[SConn]]
